@@ -934,8 +934,15 @@ def rule_prop(ctx: Ctx) -> RuleReport:
         seen_names: set[str] = set()
         for f in fns:
             # local helpers that look at the first match only
-            first_only = {g.name for g in mm.functions.values() if g.parent is f and any(isinstance(c, ast.Call) and isinstance(c.func, ast.Attribute) and c.func.attr == "find" for c in ast.walk(g.node))
-                          and not any(isinstance(c, ast.Call) and isinstance(c.func, ast.Attribute) and c.func.attr in ("findall", "iter", "iterfind") for c in ast.walk(g.node))}
+            # the helpers a lookup goes through: closures of f, module-level functions it calls, and either of them bound with functools.partial
+            helpers = {g.name: g.node for g in mm.functions.values() if g.parent is f}
+            helpers.update({g.name: g.node for g in mm.functions.values() if g.parent is None and g.cls is None and g is not f and any(isinstance(c, ast.Call) and isinstance(c.func, ast.Name) and c.func.id == g.name for c in ast.walk(f.node))})
+            for a in walk_own(f.node):
+                if isinstance(a, ast.Assign) and len(a.targets) == 1 and isinstance(a.targets[0], ast.Name) and isinstance(a.value, ast.Call) and (dotted(a.value.func) or "").split(".")[-1] == "partial" and a.value.args \
+                        and isinstance(a.value.args[0], ast.Name) and a.value.args[0].id in mm.functions:
+                    helpers[a.targets[0].id] = mm.functions[a.value.args[0].id].node
+            first_only = {nm for nm, nd in helpers.items() if any(isinstance(c, ast.Call) and isinstance(c.func, ast.Attribute) and c.func.attr == "find" for c in ast.walk(nd))
+                          and not any(isinstance(c, ast.Call) and isinstance(c.func, ast.Attribute) and c.func.attr in ("findall", "iter", "iterfind") for c in ast.walk(nd))}
             for c in ast.walk(f.node):
                 if not isinstance(c, ast.Call):
                     continue
@@ -945,7 +952,7 @@ def rule_prop(ctx: Ctx) -> RuleReport:
                     continue
                 is_find = isinstance(c.func, ast.Attribute) and c.func.attr in ("find", "findtext")
                 is_first_helper = isinstance(c.func, ast.Name) and c.func.id in first_only
-                is_all = (isinstance(c.func, ast.Attribute) and c.func.attr in ("findall", "iter", "iterfind")) or (isinstance(c.func, ast.Name) and not is_first_helper and c.func.id in {g.name for g in mm.functions.values() if g.parent is f})
+                is_all = (isinstance(c.func, ast.Attribute) and c.func.attr in ("findall", "iter", "iterfind")) or (isinstance(c.func, ast.Name) and not is_first_helper and c.func.id in helpers)
                 for x in hit:
                     if is_find or is_first_helper:
                         rep.fail(Finding("C04-PROP", rel, f.qual, f"first {x} only", f"`{short(c, 50)}` reports the first `{x}` element only; the property is repeatable (one element per keyword / author / subject), the others are lost", line=c.lineno))
